@@ -545,7 +545,7 @@ func run(r *mon.Run) {
 
 	reps, shuffles, batches := 50, 200, 10
 	if r.Thorough {
-		shuffles, batches = 1500, 60
+		shuffles, batches = 4000, 150
 	}
 	for oi, o := range mine {
 		// (a) repetitions on one built input
